@@ -359,6 +359,14 @@ func (e *Engine) blockUntil(st *State, ready smt.Term, what, site string) {
 		e.assume(st, ready)
 		return
 	}
+	if e.hookSync && e.hookCnt != nil && st.Th == nil {
+		// a sync-point hook is armed and has not fired yet: the main computation would block
+		// before reaching the stopping point - this cut is beyond what the call executes
+		if cv, ok := st.Heap[e.hookCnt].(Value); ok {
+			c := e.C
+			e.assume(st, c.Or(ready, c.Slt(cv.(IntV).T, c.BV(0, 64))))
+		}
+	}
 	e.fail(st, e.C.Not(ready), "noblock:"+what, site)
 }
 
